@@ -57,6 +57,7 @@ def configs(tier):
                         continue
                     cfgs.append(dict(group='selfcomp', cls=cls, mode=mode, storage=st, imputer=imp, d=2, q=1, T=T, cap=2,
                                      _cost=500 if st in ('uniform', 'geometric') else 100))
+        cfgs.append(dict(group='selfcomp', cls=cls, mode='static', storage='batch', imputer='product', d=3, q=1, T=3, cap=2, _cost=3000))
         if tier == 'thorough':
             cfgs.append(dict(group='selfcomp', cls=cls, mode='dynamic', storage='geometric', imputer='joint', d=3, q=1, T=3, cap=2, _cost=5000))
     for cls in ('BatchSage', 'IntervalSage'):
@@ -433,6 +434,9 @@ def _private_generators(env, cfg):
     shared = getattr(core.PATH_RESET_HOOKS[0], 'functions', []) if core.PATH_RESET_HOOKS else []
     env.claim('no_mutable_object_shared_through_default_arguments', not shared,
               detail=f"evaluated once at import and shared by every instance in the process: {shared}")
+    gens = getattr(core.PATH_RESET_HOOKS[0], 'import_time_generators', []) if core.PATH_RESET_HOOKS else []
+    env.claim('no_generator_object_created_at_import_time', not gens,
+              detail=f"private generators living on a module or class (seeded once per process, not by the global seeds): {gens}")
     containers = getattr(core.PATH_RESET_HOOKS[0], 'shared_containers', []) if core.PATH_RESET_HOOKS else []
     env.claim('no_mutable_container_on_a_class_or_module', not containers,
               detail=f"process-wide mutable state shared by all instances: {containers}")
